@@ -30,25 +30,49 @@ Proof.
   - cbn [In]. rewrite IH. rewrite Nat2Z.inj_succ. lia.
 Qed.
 
-Lemma hours_between_In : forall cur e h, cur <= h -> h * HOUR < e -> In h (hours_between cur e).
+Lemma ceil_aligned : forall e, e mod HOUR = 0 -> (e + HOUR - 1) / HOUR = e / HOUR.
 Proof.
-  intros cur e h Hc He. unfold hours_between. apply hours_from_In.
-  assert (h + 1 <= (e + HOUR - 1) / HOUR).
-  { apply Z.div_le_lower_bound; [apply HOUR_pos|]. lia. }
-  rewrite Z2Nat.id by lia. lia.
+  intros e H. pose proof HOUR_pos.
+  apply Z.mod_divide in H; [|lia]. destruct H as [k Hk]. subst e.
+  rewrite Z.div_mul by lia.
+  replace (k * HOUR + HOUR - 1) with ((HOUR - 1) + k * HOUR) by ring.
+  rewrite Z.div_add by lia. rewrite Z.div_small by lia. lia.
 Qed.
 
-Lemma hours_between_bounds : forall cur e h, In h (hours_between cur e) -> cur <= h /\ h * HOUR < e.
+Lemma hours_between_In : forall cur e incl h, cur <= h ->
+  (h * HOUR < e \/ (incl = true /\ h * HOUR = e)) -> In h (hours_between cur e incl).
 Proof.
-  intros cur e h H. unfold hours_between in H. apply hours_from_In in H.
+  intros cur e incl h Hc He. unfold hours_between. apply hours_from_In.
+  pose proof HOUR_pos.
+  destruct He as [He|[Hi He]].
+  - assert (h + 1 <= (e + HOUR - 1) / HOUR) by (apply Z.div_le_lower_bound; lia).
+    assert (0 <= (if incl && (e mod HOUR =? 0) then 1 else 0)) by (destruct (incl && (e mod HOUR =? 0)); lia).
+    rewrite Z2Nat.id by lia. lia.
+  - subst incl. assert (Hm : e mod HOUR = 0) by (subst e; apply Z.mod_mul; lia).
+    rewrite Hm. cbn [andb Z.eqb]. rewrite ceil_aligned by exact Hm.
+    subst e. rewrite Z.div_mul by lia. rewrite Z2Nat.id by lia. lia.
+Qed.
+
+Lemma hours_between_bounds : forall cur e incl h, In h (hours_between cur e incl) ->
+  cur <= h /\ (h * HOUR < e \/ (incl = true /\ h * HOUR = e)).
+Proof.
+  intros cur e incl h H. unfold hours_between in H. apply hours_from_In in H.
+  pose proof HOUR_pos.
+  set (x := if incl && (e mod HOUR =? 0) then 1 else 0) in *.
   split; [lia|].
-  assert (Hlt : h < (e + HOUR - 1) / HOUR).
-  { destruct (Z_le_gt_dec ((e + HOUR - 1) / HOUR - cur) 0) as [Hle|Hgt].
+  assert (Hlt : h < (e + HOUR - 1) / HOUR + x).
+  { destruct (Z_le_gt_dec ((e + HOUR - 1) / HOUR - cur + x) 0) as [Hle|Hgt].
     - rewrite (to_nat_nonpos _ Hle) in H. cbn in H. lia.
     - rewrite Z2Nat.id in H by lia. lia. }
-  pose proof HOUR_pos.
   assert (Hm : HOUR * ((e + HOUR - 1) / HOUR) <= e + HOUR - 1) by (apply Z.mul_div_le; lia).
-  nia.
+  unfold x in Hlt. destruct incl; cbn [andb] in Hlt.
+  - destruct (e mod HOUR =? 0) eqn:E.
+    + apply Z.eqb_eq in E. rewrite ceil_aligned in Hlt by exact E.
+      assert (Hd : e = HOUR * (e / HOUR)) by (rewrite (Z.div_mod e HOUR) at 1 by lia; lia).
+      assert (h <= e / HOUR) by lia.
+      destruct (Z.eq_dec h (e / HOUR)) as [Heq|Hne]; [right; split; [reflexivity|nia]|left; nia].
+    + left. nia.
+  - left. nia.
 Qed.
 
 Lemma dedup_adj_In : forall l x, In x l -> In x (dedup_adj l).
@@ -61,10 +85,11 @@ Proof.
     + destruct H as [H|H]; [left; exact H|right; apply IH; exact H].
 Qed.
 
-Lemma gen_cover_hour : forall s e hs t,
-  gen s e = Some hs -> s <= t -> 0 <= t -> (t / HOUR) * HOUR < e -> In (hour_of t) hs.
+Lemma gen_cover_hour : forall s e incl hs t,
+  gen s e incl = Some hs -> s <= t -> 0 <= t ->
+  ((t / HOUR) * HOUR < e \/ (incl = true /\ (t / HOUR) * HOUR = e)) -> In (hour_of t) hs.
 Proof.
-  intros s e hs t Hg Hs Ht He. unfold gen in Hg.
+  intros s e incl hs t Hg Hs Ht He. unfold gen in Hg.
   destruct (max_paths <? est_paths (start_hour s) e); [discriminate|]. injection Hg as Hg. subst hs.
   apply hours_between_In; [|exact He]. unfold start_hour, hour_of.
   pose proof HOUR_pos.
@@ -77,13 +102,21 @@ Proof.
   intros t e H. pose proof HOUR_pos. pose proof (Z.mul_div_le t HOUR ltac:(lia)). lia.
 Qed.
 
-Lemma paths_cover : forall s e hs t,
-  gen s e = Some hs -> s <= t -> 0 <= t -> t < e ->
+Lemma hour_floor_le : forall t e (incl : bool), (if incl then t <= e else t < e) ->
+  (t / HOUR) * HOUR < e \/ (incl = true /\ (t / HOUR) * HOUR = e).
+Proof.
+  intros t e incl H. pose proof HOUR_pos. pose proof (Z.mul_div_le t HOUR ltac:(lia)).
+  destruct incl; [|left; lia].
+  destruct (Z.eq_dec (t / HOUR * HOUR) e); [right; split; [reflexivity|assumption]|left; lia].
+Qed.
+
+Lemma paths_cover : forall s e (incl : bool) hs t,
+  gen s e incl = Some hs -> s <= t -> 0 <= t -> (if incl then t <= e else t < e) ->
   In (hour_of t) hs /\ In (day_of t) (days_of hs) /\
   In (hour_path (hour_of t)) (map hour_path hs) /\ In (day_path (day_of t)) (map day_path (days_of hs)).
 Proof.
-  intros s e hs t Hg Hs Ht He.
-  assert (Hh : In (hour_of t) hs) by (eapply gen_cover_hour; eauto using hour_floor_lt).
+  intros s e incl hs t Hg Hs Ht He.
+  assert (Hh : In (hour_of t) hs) by (eapply gen_cover_hour; eauto using hour_floor_le).
   assert (Hd : In (day_of t) (days_of hs)).
   { unfold days_of. apply dedup_adj_In. apply in_map_iff. exists (hour_of t). split; [|exact Hh].
     unfold hour_of, day_of. rewrite DAY_HOUR. apply Z.div_div; [pose proof HOUR_pos; lia|lia]. }
@@ -91,9 +124,10 @@ Proof.
 Qed.
 
 (* generated hours start at the (clamped) start hour: nothing below is read *)
-Lemma gen_lower : forall s e hs h, gen s e = Some hs -> In h hs -> Z.max 0 (s / HOUR) <= h /\ h * HOUR < e.
+Lemma gen_lower : forall s e incl hs h, gen s e incl = Some hs -> In h hs ->
+  Z.max 0 (s / HOUR) <= h /\ (h * HOUR < e \/ (incl = true /\ h * HOUR = e)).
 Proof.
-  intros s e hs h Hg Hin. unfold gen in Hg.
+  intros s e incl hs h Hg Hin. unfold gen in Hg.
   destruct (max_paths <? est_paths (start_hour s) e); [discriminate|]. injection Hg as Hg. subst hs.
   apply hours_between_bounds in Hin. exact Hin.
 Qed.
@@ -203,24 +237,33 @@ Proof.
   - destruct (IH x H) as [b [Hb Hf]]. exists b. split; [right; exact Hb|exact Hf].
 Qed.
 
-(* all atoms are on the real time column (or on other columns entirely) and hold on the row *)
+(* no comparison on a column named timestamp, and every atom holds on the row *)
 Definition atoms_hold (r : row) (now : Z) (l : list atom) : Prop :=
-  forall a, In a l -> atom_on_time a = true /\ eval_atom r now a = true.
+  forall a, In a l -> atom_ok a = true /\ eval_atom r now a = true.
 
-Lemma try_cmp_sound : forall r now l sfx op v,
-  atoms_hold r now l -> try_cmp sfx op l = Some v ->
-  sfx CTime = true /\ cmp op (r_time r) v = true.
+Lemma try_cmp_time_sound : forall r now l op v,
+  atoms_hold r now l -> try_cmp time_sfx op l = Some v -> cmp op (r_time r) v = true.
 Proof.
-  intros r now l sfx op v Hh H. unfold try_cmp in H.
-  destruct (find_first (m_cmp sfx op) l) as [t|] eqn:E; [|discriminate].
+  intros r now l op v Hh H. unfold try_cmp in H.
+  destruct (find_first (m_cmp time_sfx op) l) as [t|] eqn:E; [|discriminate].
   destruct (l_ok t); [|discriminate]. injection H as H. subst v.
   apply find_first_In in E. destruct E as [a [Hin Hm]]. destruct (Hh a Hin) as [Hon Hev].
   destruct a as [c o lit| | |]; cbn in Hm; try discriminate.
-  destruct (sfx c && opb o op) eqn:E2; [|discriminate]. injection Hm as Hm. subst lit.
+  destruct (time_sfx c && opb o op) eqn:E2; [|discriminate]. injection Hm as Hm. subst lit.
   apply andb_true_iff in E2. destruct E2 as [Hs Ho].
-  destruct c; cbn in Hon; try discriminate.
-  split; [exact Hs|]. cbn in Hev.
+  destruct c; cbn in Hs; try discriminate. cbn in Hev.
   destruct o, op; cbn in Ho; try discriminate; exact Hev.
+Qed.
+
+Lemma try_cmp_ts_none : forall r now l op, atoms_hold r now l -> try_cmp ts_sfx op l = None.
+Proof.
+  intros r now l op Hh. unfold try_cmp.
+  destruct (find_first (m_cmp ts_sfx op) l) as [t|] eqn:E; [|reflexivity].
+  apply find_first_In in E. destruct E as [a [Hin Hm]]. destruct (Hh a Hin) as [Hon Hev].
+  destruct a as [c o lit| | |]; cbn in Hm; try discriminate.
+  destruct (ts_sfx c && opb o op) eqn:E2; [|discriminate].
+  apply andb_true_iff in E2. destruct E2 as [Hs _].
+  destruct c; cbn in Hs, Hon; discriminate.
 Qed.
 
 Lemma between_ok_sound : forall r now l a b,
@@ -231,8 +274,8 @@ Proof.
   destruct (l_ok l1 && l_ok l2); [|discriminate]. injection H as H1 H2. subst.
   apply find_first_In in E. destruct E as [x [Hin Hm]]. destruct (Hh x Hin) as [Hon Hev].
   destruct x as [| |c m1 m2|]; cbn in Hm; try discriminate.
-  destruct (time_sfx c); [|discriminate]. injection Hm as Hm1 Hm2. subst.
-  destruct c; cbn in Hon; try discriminate. cbn in Hev. lia.
+  destruct (time_sfx c) eqn:Hs; [|discriminate]. injection Hm as Hm1 Hm2. subst.
+  destruct c; cbn in Hs; try discriminate. cbn in Hev. lia.
 Qed.
 
 Lemma rel_bound_sound : forall r now l lower v op,
@@ -246,9 +289,9 @@ Proof.
     destruct x as [|c o' ad n' u'| |]; cbn in Hm; try discriminate.
     destruct (time_sfx c && (if lower then is_lower o' else is_upper o') && Bool.eqb ad add) eqn:E2; [|discriminate].
     injection Hm as H1 H2 H3. subst.
-    apply andb_true_iff in E2. destruct E2 as [E2 Had]. apply andb_true_iff in E2. destruct E2 as [_ Hop].
+    apply andb_true_iff in E2. destruct E2 as [E2 Had]. apply andb_true_iff in E2. destruct E2 as [Hs Hop].
     apply eqb_prop in Had. subst ad.
-    destruct c; cbn in Hon; try discriminate. split; [exact Hop|exact Hev]. }
+    destruct c; cbn in Hs; try discriminate. split; [exact Hop|exact Hev]. }
   destruct (find_first (m_rel lower false) l) as [[[o n] u]|] eqn:E1.
   - injection H as H1 H2. subst. apply (Hgen false). exact E1.
   - destruct (find_first (m_rel lower true) l) as [[[o n] u]|] eqn:E2; [|discriminate].
@@ -262,12 +305,11 @@ Proof.
   - injection H as H. subst. pose proof (between_ok_sound _ _ _ _ _ Hh Eb). lia.
   - destruct (abs_start l) as [x|] eqn:Ea.
     + injection H as H. subst x. unfold abs_start in Ea. cbn [first_some] in Ea.
-      repeat match type of Ea with
-             | context [match try_cmp ?f ?o l with _ => _ end] =>
-                 let E := fresh "E" in destruct (try_cmp f o l) eqn:E;
-                 [injection Ea as Ea; subst; apply (try_cmp_sound _ _ _ _ _ _ Hh) in E; destruct E as [Es Ec]; cbn in Es, Ec; try discriminate; lia|]
-             end.
-      discriminate.
+      rewrite !(try_cmp_ts_none _ _ _ _ Hh) in Ea.
+      destruct (try_cmp time_sfx OGe l) eqn:E1.
+      { injection Ea as Ea. subst. apply (try_cmp_time_sound _ _ _ _ _ Hh) in E1. cbn in E1. lia. }
+      destruct (try_cmp time_sfx OGt l) eqn:E2; [|discriminate].
+      injection Ea as Ea. subst. apply (try_cmp_time_sound _ _ _ _ _ Hh) in E2. cbn in E2. lia.
     + destruct (rel_bound true l now) as [[v op]|] eqn:Er; [|discriminate].
       cbn in H. injection H as H. subst v.
       destruct (rel_bound_sound _ _ _ _ _ _ Hh Er) as [Hop Hc].
@@ -279,14 +321,11 @@ Lemma abs_end_incl_sound : forall r now l e incl,
   if incl then r_time r <= e else r_time r < e.
 Proof.
   intros r now l e incl Hh H. unfold abs_end_incl in H.
+  rewrite !(try_cmp_ts_none _ _ _ _ Hh) in H.
   destruct (try_cmp time_sfx OLt l) eqn:E1.
-  { injection H as H1 H2. subst. apply (try_cmp_sound _ _ _ _ _ _ Hh) in E1. destruct E1 as [_ Ec]. cbn in Ec. lia. }
-  destruct (try_cmp time_sfx OLe l) eqn:E2.
-  { injection H as H1 H2. subst. apply (try_cmp_sound _ _ _ _ _ _ Hh) in E2. destruct E2 as [_ Ec]. cbn in Ec. lia. }
-  destruct (try_cmp ts_sfx OLt l) eqn:E3.
-  { apply (try_cmp_sound _ _ _ _ _ _ Hh) in E3. destruct E3 as [Es _]. discriminate. }
-  destruct (try_cmp ts_sfx OLe l) eqn:E4; [|discriminate].
-  apply (try_cmp_sound _ _ _ _ _ _ Hh) in E4. destruct E4 as [Es _]. discriminate.
+  { injection H as H1 H2. subst. apply (try_cmp_time_sound _ _ _ _ _ Hh) in E1. cbn in E1. lia. }
+  destruct (try_cmp time_sfx OLe l) eqn:E2; [|discriminate].
+  injection H as H1 H2. subst. apply (try_cmp_time_sound _ _ _ _ _ Hh) in E2. cbn in E2. lia.
 Qed.
 
 Lemma end_of_sound : forall r now l e incl, atoms_hold r now l -> end_of l now = Some (e, incl) ->
@@ -304,7 +343,7 @@ Proof.
 Qed.
 
 Lemma bounds_sound_conj : forall w now r s e incl,
-  conj_only w = true -> forallb atom_on_time (flatten w) = true -> eval_w r now w = true ->
+  conj_only w = true -> forallb atom_ok (flatten w) = true -> eval_w r now w = true ->
   start_of (flatten w) now = Some s -> end_of (flatten w) now = Some (e, incl) ->
   s <= r_time r /\ (if incl then r_time r <= e else r_time r < e).
 Proof.
@@ -362,28 +401,18 @@ Proof.
   assert (Hsel : select w now (filter (file_kept hs) fs) = select w now fs).
   { apply select_kept. intros f Hf Hk ir Hir.
     destruct (eval_w (snd ir) now w) eqn:Hev; [|reflexivity]. exfalso.
-    (* unpack the classification *)
     unfold classify in Hcl.
     destruct (has_or w) eqn:Hor; [discriminate|]. destruct (has_not w) eqn:Hnot; [discriminate|].
-    destruct (forallb atom_on_time (flatten w)) eqn:Hon; [|discriminate]. cbn [negb] in Hcl.
+    destruct (forallb atom_ok (flatten w)) eqn:Hon; [|discriminate]. cbn [negb] in Hcl.
     destruct (start_of (flatten w) now) as [s|] eqn:Hs; [|discriminate].
     destruct (end_of (flatten w) now) as [[e incl]|] eqn:He; [|discriminate].
-    destruct (incl && (e mod HOUR =? 0)) eqn:Hb; [discriminate|].
     pose proof (no_or_not_conj w Hor Hnot) as Hc.
     destruct (bounds_sound_conj w now (snd ir) s e incl Hc Hon Hev Hs He) as [Hlo Hhi].
-    (* the generated hours *)
     unfold pruned_hours, extract in Ep. rewrite Hs, He in Ep.
-    destruct (gen s e) as [hs'|] eqn:Hg; [|discriminate].
+    destruct (gen s e incl) as [hs'|] eqn:Hg; [|discriminate].
     assert (hs' = hs) by (destruct hs'; [discriminate|injection Ep as Ep; exact Ep]). subst hs'.
     assert (Ht : 0 <= r_time (snd ir)) by (apply (Hnn f Hf ir Hir)).
-    assert (Hfl : (r_time (snd ir) / HOUR) * HOUR < e).
-    { pose proof HOUR_pos. pose proof (Z.mul_div_le (r_time (snd ir)) HOUR ltac:(lia)).
-      destruct incl.
-      - cbn [andb] in Hb. apply Z.eqb_neq in Hb.
-        destruct (Z.eq_dec (r_time (snd ir) / HOUR * HOUR) e) as [Heq|Hne]; [|lia].
-        exfalso. apply Hb. rewrite <- Heq. apply Z.mod_mul. lia.
-      - lia. }
-    pose proof (gen_cover_hour s e hs (r_time (snd ir)) Hg Hlo Ht Hfl) as Hin.
+    pose proof (gen_cover_hour s e incl hs (r_time (snd ir)) Hg Hlo Ht (hour_floor_le _ _ _ Hhi)) as Hin.
     pose proof (Hlay f Hf) as Hok. destruct f as [h rows|d rows]; cbn in Hok, Hk, Hir.
     - rewrite <- (Hok ir Hir) in Hk. rewrite existsb_eqb_In in Hk by exact Hin. discriminate.
     - assert (Hd : In d (days_of hs)).
